@@ -119,9 +119,6 @@ def group_task(task):
                 if D.d > 28:
                     sh.skip("earlier-dom>28")
                     continue
-                if "Y" in units and "w" in units and "m" not in units and D.iw > 52:
-                    sh.skip("iso-week-53-start")
-                    continue
             bcls = []
             mag = abs(eb - ea)
             for nm, s in (("min", 60), ("hour", 3600), ("day", 86400), ("week", 604800)):
@@ -176,7 +173,7 @@ def main(tier, seed):
                 "instants per subset, all ordered pairs. distinct_nontrivial = distinct (subset+order, sign, unit "
                 "boundaries straddled, date|date-time)" % (len(subs), ngroups, gsize))
     ctx.assumptions = ["earlier operand has day-of-month <= 28 for subsets with %Y/%m (statement of C05/C06)",
-                       "year+week subsets without months are ISO-week-calendar durations (DESIGN C05 L)",
+                       "year+week subsets without months are ISO-week-calendar durations (DESIGN C05 L); an earlier operand in week 53 counts as the last week of years without one, as in dadd",
                        "%rS belongs to C14"]
     ctx.min_evals = 50000
     return ctx.finish()
